@@ -155,6 +155,7 @@ impl Semiring for MaxMinSr {
 }
 
 /// (max, min) over u64 (C12 expiry times: one = u64::MAX)
+#[allow(dead_code)]
 #[derive(Clone, Copy)]
 pub struct MaxMinU64Sr;
 impl Semiring for MaxMinU64Sr {
